@@ -11,7 +11,7 @@ model mode  (state = one assembler session of Model/Emitter.lean)
   label | nlabel <hexname|-> <type> <parent> | bind <id> | align <mode> <n> | embed <hex> | embedarr <type> <hexitem|-> <count> <repeat>
   elabel <id> <size> | edelta <id> <base> <size> | newsec <hexname> <flags> <align> | section <idx|foreign>
   emit <refs a,b|-> <opts hex> <extra 0|1> <comment 0|1> rej <err>
-  emit <refs a,b|-> <opts hex> <extra 0|1> <comment 0|1> acc <hexbytes|-> <nrel> <nf label:type:vsize:voff:bits:shift:discard:off:rel:reloc|->
+  emit <refs a,b|-> <opts hex> <extra 0|1> <comment 0|1> acc <hexbytes|-> <nrel> <nf label:type:vsize:voff:bits:shift:discard:off:rel:reloc|-> <new sections>
   -> <code> rep=<0|1> O <opts> <sig> <id> <cmt> sec=<sizes> lab=<n> bnd=<n> rel=<n> fix=<n> cur=<n> off=<n> bh=<fnv of the section bytes>
 
 monitor mode (stateless; one observation per line)
@@ -69,9 +69,9 @@ def parseOp (s : St) (ws : List String) : Option Op :=
     let pre : OneShot := { options := ← parseHex? opts, extraSig := if ex == "1" then 1 else 0, extraId := 0, comment := cm == "1" }
     match rest with
     | ["rej", e] => some (.emit pre refs (.reject (← e.toNat?)))
-    | ["acc", bytes, nrel, nf] =>
+    | ["acc", bytes, nrel, nf, nsec] =>
       let fx ← if nf == "-" then some none else (parseFixup nf).map some
-      some (.emit pre refs (.accept (← hexToBytes? bytes) fx (← nrel.toNat?)))
+      some (.emit pre refs (.accept (← hexToBytes? bytes) fx (← nrel.toNat?) (← nsec.toNat?)))
     | _ => none
   | _ => none
 
